@@ -19,7 +19,7 @@ RULE = ("row tables (1-5 string columns, skewed small alphabets, empty strings a
 THEOREMS = ["C13_split_indep", "C13_compositions", "C13_card_any_insertion", "C13_card_function_of_rows", "C13_card_exact",
             "C13_counter_exact", "C13_hist_spec", "C13_rare_spec", "C13_rare_checker_sound", "C13_rare_model_ok",
             "C13_missing_cells", "C13_coverage", "C13_coverage_annotation", "C13_mean_nonneg", "C13_symbols_split",
-            "C13_prefix_refuted"]
+            "C13_prefix_refuted", "C13_frame_none_free", "C13_split_indep_parsed", "C13_none_cells_refuted"]
 
 COV_TOL = 1e-9          # per-batch coverage: float (1 - m/n) * 100 against the exact rational
 TIE_TOL = 1e-9          # annotation excluded when the exact mean is this close to k + 0.95 (the only ties that matter)
@@ -57,6 +57,16 @@ def random_composition(rng, n, maxparts=8):
     return [pts[i + 1] - pts[i] for i in range(k)]
 
 
+def add_none(rng, col):
+    """cells the parser left as None (ob-vw: absent namespace)"""
+    p = rng.choice([0.0, 0.0, 0.0, 0.15, 0.4, 0.8])
+    return [None if rng.random() < p else v for v in col]
+
+
+def has_none(case):
+    return any(v is None for r in case["rows"] for v in r)
+
+
 def gen_column(rng, n, syms_list, rich=False):
     k = rng.randint(1, 9 if rich else 4)
     alpha = rng.sample(POOL, min(k, len(POOL)))
@@ -82,9 +92,15 @@ def make_case(rng, n, ncols, splits, family, rich=False, smallcap=None, via=None
     thr, bound, syms = gen_params(rng)
     cols = rng.sample(NAMES, ncols)
     columns = [gen_column(rng, n, syms, rich) for _ in range(ncols)]
+    if via != "pipeline":
+        columns = [add_none(rng, c) for c in columns]
     rows = [[columns[j][i] for j in range(ncols)] for i in range(n)]
     if via is None:
         via = "batch" if rng.random() < 0.25 else "direct"
+    if via == "batch" and any(v is None for r in rows for v in r):
+        # on the unchanged repo compute_batch_ranking raises in compute_bounds_increment (np.unique of a column mixing
+        # nan / None and str) for every batch of >= 2 rows holding a None cell: not C13's subject
+        via = "direct"
     return {"cols": cols, "rows": rows, "splits": splits, "thr": thr, "bound": bound, "syms": syms,
             "smallcap": smallcap, "via": via, "family": family}
 
@@ -114,6 +130,9 @@ def gen_rounding_big(rng):
     for j in range(ncols):
         for _ in range(rng.randint(1, 2)):
             rows[rng.randrange(n)][j] = ""
+    if rng.random() < 0.5:
+        for _ in range(rng.randint(1, 3)):
+            rows[rng.randrange(n)][rng.randrange(ncols)] = None
     sp = [[n]]
     for _ in range(2):
         c = random_composition(rng, n, 3)
@@ -139,7 +158,7 @@ def gen_rounding_steered(rng):
     for n, m in spec:
         cells = [""] * m + [rng.choice(["a", "b"]) for _ in range(n - m)]
         rng.shuffle(cells)
-        rows += [[c, rng.choice(["u", "v", ""])] for c in cells]
+        rows += [[c, rng.choice(["u", "v", "", None, None])] for c in cells]
     sizes = [n for n, _ in spec]
     total = sum(sizes)
     sp = [sizes, [total]]
@@ -156,6 +175,27 @@ def gen_pipeline(rng):
     c["cols"] = ["f%d" % j for j in range(len(c["cols"]))]
     c["rows"] = [[v.replace(",", ";") for v in r] for r in c["rows"]]
     return c
+
+
+def gen_pipeline_vw(rng):
+    """the real streaming loop over ob-vw lines: label column first, absent namespaces are parsed as None.  With None
+    cells only the all-singletons composition (minibatch_size 1) runs on the unchanged repo (see make_case)."""
+    n = rng.choice([4, 6, 8, 12])
+    ncols = rng.randint(2, 4)
+    with_none = rng.random() < 0.6
+    thr, bound, syms = gen_params(rng)
+    cols = ["label"] + ["g%d" % j for j in range(1, ncols)]
+    columns = [[rng.choice(["0", "1"]) for _ in range(n)]]
+    for _ in range(1, ncols):
+        c = [v.replace(" ", "_") for v in gen_column(rng, n, syms)]
+        columns.append(add_none(rng, c) if with_none else c)
+    rows = [[columns[j][i] for j in range(ncols)] for i in range(n)]
+    if any(v is None for r in rows for v in r):
+        sp = [[1] * n]
+    else:
+        sp = [[k] * (n // k) for k in range(1, n + 1) if n % k == 0]
+    return {"cols": cols, "rows": rows, "splits": sp, "thr": thr, "bound": bound, "syms": syms, "smallcap": None,
+            "via": "pipeline", "source": "ob-vw", "family": "pipeline-vw"}
 
 
 def fixed_cases():
@@ -177,6 +217,16 @@ def fixed_cases():
         {"cols": ["f0", "f1"], "rows": [["NA", ""], ["-", ""], ["NA", ""], ["", ""]], "splits": [[4], [1, 3], [2, 2]],
          "thr": 5, "bound": 30000, "syms": "NA,-", "smallcap": None, "via": "direct", "family": "fixed"},
     ]
+    # None cells (absent vw namespaces): not a missing symbol, denominator = rows (seeded C13-C: 'u', None, '{}', 'v' is 75)
+    vw = [["1", "u", "x"], ["0", None, "x"], ["1", "{}", None], ["0", "v", None],
+          ["1", None, None], ["1", None, None], ["0", "{}", None], ["0", "", "x"],
+          ["1", "u", None], ["0", "{}", "y"], ["1", None, "{}"], ["0", "u", None]]
+    out.append({"cols": ["label", "feat_a", "feat_b"], "rows": vw, "splits": [[4, 4, 4], [12], [1] * 12, [2, 10], [6, 6]],
+                "thr": 1, "bound": 30000, "syms": ",{}", "smallcap": None, "via": "direct", "family": "fixed"})
+    out.append({"cols": ["label", "feat_a", "feat_b"], "rows": vw, "splits": [[1] * 12], "thr": 2, "bound": 30000, "syms": ",{}",
+                "smallcap": None, "via": "pipeline", "source": "ob-vw", "family": "fixed"})
+    out.append({"cols": ["f0"], "rows": [[None], ["a"], [None]], "splits": [[3], [1, 1, 1], [1, 2], [2, 1]], "thr": 1, "bound": 30000,
+                "syms": ",{}", "smallcap": None, "via": "direct", "family": "fixed"})
     # 2001 rows, one missing: 99.950025 -> 100; 1999 rows: 99.94997 -> 99
     for n in (2001, 1999):
         rows = [["a"] for _ in range(n)]
@@ -190,9 +240,9 @@ def generate(run):
     rng = run.rng
     cases = fixed_cases()
     if run.tier == "quick":
-        plan = dict(small=120, nmax=5, medium=90, nsplits=7, smallcap=25, big=6, steered=60, pipeline=25)
+        plan = dict(small=120, nmax=5, medium=90, nsplits=7, smallcap=25, big=6, steered=60, pipeline=20, vw=25)
     else:
-        plan = dict(small=900, nmax=6, medium=600, nsplits=14, smallcap=160, big=40, steered=400, pipeline=200)
+        plan = dict(small=900, nmax=6, medium=600, nsplits=14, smallcap=160, big=40, steered=400, pipeline=150, vw=200)
     for _ in range(plan["small"]):
         cases.append(gen_small(rng, plan["nmax"]))
     for _ in range(plan["medium"]):
@@ -205,6 +255,8 @@ def generate(run):
         cases.append(gen_rounding_steered(rng))
     for _ in range(plan["pipeline"]):
         cases.append(gen_pipeline(rng))
+    for _ in range(plan["vw"]):
+        cases.append(gen_pipeline_vw(rng))
     return cases
 
 
@@ -215,8 +267,28 @@ def slit(s):
     return vlib.strlit(s)
 
 
+def cell_lit(v):
+    return "None" if v is None else "(Some %s)" % slit(v)
+
+
 def rows_lit(rows):
-    return "[" + "; ".join("[" + "; ".join(slit(v) for v in r) + "]" for r in rows) + "]%N"
+    return "[" + "; ".join("[" + "; ".join(cell_lit(v) for v in r) + "]" for r in rows) + "]%N"
+
+
+def val_lit(e):
+    """a key as the runner encodes it"""
+    if e[0] == "s":
+        return "(V %s%%N)" % slit(e[1])
+    if e[0] == "nan":
+        return "NaN"
+    if e[0] == "none":
+        return "PyNone"
+    raise ValueError("key of unexpected type: %r" % (e,))
+
+
+def val_dec(tag_s):
+    tag, codes = tag_s
+    return {0: ("s", vlib.from_codes(codes)), 1: ("nan",), 2: ("none",)}[tag]
 
 
 def coq_expr(case, r, edges, cap):
@@ -231,7 +303,7 @@ def coq_expr(case, r, edges, cap):
     for h in r["histories"]:
         cards = vlib.nlist([a[0] for a in h["annotation"]]) + "%nat"
         hists = "[" + "; ".join(vlib.zlist([h["hist"][c][str(e)] for e in edges]) for c in cols) + "]"
-        rare = "[" + "; ".join("((%d%%nat, %s%%N), %s)" % (idx[k[0]], slit(k[1]), vlib.zlit(k[2])) for k in h["rare"]) + "]"
+        rare = "[" + "; ".join("((%d%%nat, %s), %s)" % (idx[k[0]], val_lit(k[1]), vlib.zlit(k[2])) for k in h["rare"]) + "]"
         obs.append("(%s, %s, %s)" % (cards, hists, rare))
     return "let c := %s in (map (C13_model c) %s, C13_spec c, map (C13_check c) [%s])" % (mk, sizes, "; ".join(obs))
 
@@ -269,6 +341,9 @@ def evaluate(cases, stats=None):
     infos = [dict() for _ in cases]
     exprs, eidx = [], []
     meta = {}
+    keepmap = {}
+    cases_eff = list(cases)
+    results_eff = list(results)
     for i, (case, r) in enumerate(zip(cases, results)):
         cols = case["cols"]
         if r["hash_error"]:
@@ -280,7 +355,14 @@ def evaluate(cases, stats=None):
             h = r["histories"][bad[0]]
             problems[i].append(dict(clause="the statistics calls terminate normally", obligation="impl-raises",
                                     splits=[bad[0]], impl=h["error"] + "\n" + h.get("trace", ""), model=None))
-            continue
+            keep = [k for k, h in enumerate(r["histories"]) if h["ok"]]
+            if not keep:
+                continue
+            # go on with the histories that did run
+            keepmap[i] = keep
+            case = sub_case(case, keep)
+            r = dict(r, histories=[r["histories"][k] for k in keep])
+            cases_eff[i], results_eff[i] = case, r
         h0 = r["histories"][0]
         try:
             edges = sorted(int(k) for k in h0["hist"][cols[0]])
@@ -298,7 +380,12 @@ def evaluate(cases, stats=None):
         caps = {h["sketch"][c]["warmup_size"] for h in r["histories"] for c in cols}
         cap = caps.pop()
         meta[i] = (edges, cap)
-        exprs.append(coq_expr(case, r, edges, cap))
+        try:
+            exprs.append(coq_expr(case, r, edges, cap))
+        except ValueError as e:
+            problems[i].append(dict(clause="report keys are (feature, cell value) pairs", obligation="correspondence:rare report",
+                                    splits=[0], impl=str(e), model=None))
+            continue
         eidx.append(i)
     big = [k for k, i in enumerate(eidx) if len(cases[i]["rows"]) > 200]
     small = [k for k, i in enumerate(eidx) if len(cases[i]["rows"]) <= 200]
@@ -310,7 +397,11 @@ def evaluate(cases, stats=None):
         for k, v in zip(big, vlib.coq_eval("C13b", HEADER, [exprs[k] for k in big], shard=1)):
             vals[k] = v
     for i, v in zip(eidx, vals):
-        compare_case(cases[i], results[i], v, meta[i], problems[i], infos[i])
+        n0 = len(problems[i])
+        compare_case(cases_eff[i], results_eff[i], v, meta[i], problems[i], infos[i])
+        if i in keepmap:
+            for p in problems[i][n0:]:
+                p["splits"] = [keepmap[i][k] for k in p["splits"]]
     return problems, infos
 
 
@@ -322,12 +413,18 @@ def compare_case(case, r, v, meta, probs, info):
     hashes = [h for _, h in r["hashes"]]
     injective = len(set(hashes)) == len(hashes)
     info.update(injective=injective, cold=0, ties=0, beyond_bound=0, beyond_bound_model_agrees=0, writer_late_errors=0,
-                writer_ran=0, empty_report=0)
+                writer_ran=0, empty_report=0, none_table=0, none_split_dependent=0)
+    # columns holding a None cell: the frame content (nan / None) depends on the batch, C13_none_cells_refuted — the
+    # specification of the concatenation and split independence are claimed for None-free columns (string keys for the rare table)
+    colnone = [any(row[j] is None for row in case["rows"]) for j in range(len(cols))]
+    tablenone = any(colnone)
+    info["none_table"] = 1 if tablenone else 0
 
     def add(clause, obligation, splits, impl, model):
         probs.append(dict(clause=clause, obligation=obligation, splits=splits, impl=impl, model=model))
 
     canon = []
+    fulls = []
     for k, (sizes, h, m, verdict) in enumerate(zip(case["splits"], r["histories"], models, verdicts)):
         mcols, mrare = m
         vcards, vhists, vrare = verdict
@@ -347,22 +444,26 @@ def compare_case(case, r, v, meta, probs, info):
                 if sk["cold"] or icard != mcard:
                     add("cardinality while warm = number of distinct hashes of the non-empty cells (model)",
                         "correspondence:cardinality", [k], dict(column=c, annotation=icard, sketch=sk), mcard)
-                if injective and sdistinct <= cap and icard != sdistinct:
+                if injective and not colnone[j] and sdistinct <= cap and icard != sdistinct:
                     add("C13_card_exact: annotation = exact number of distinct non-empty values",
                         "C13_card_exact", [k], dict(column=c, annotation=icard), sdistinct)
-            if not vcards[j]:
+            if not vcards[j] and not colnone[j]:
                 add("C13_check: cardinality differs from card_spec of the whole column", "C13_card_function_of_rows", [k],
                     dict(column=c, annotation=icard), scard)
             # histogram
             ihist = [h["hist"][c][str(e)] for e in edges]
-            if shist is not None:
+            if colnone[j]:
+                if ihist != list(mhist):
+                    add("histogram of a column with None cells = model of the frame contents (nan / None keys)", "correspondence:histogram",
+                        [k], dict(column=c, hist=ihist, counter=h["counter"][c]), dict(model=mhist))
+            elif shist is not None:
                 if ihist != list(mhist) or ihist != list(shist):
                     add("C13_hist_spec: bucket(x) = #{v | count v > x} (distinct < bound)", "C13_hist_spec", [k],
                         dict(column=c, hist=ihist, counter=h["counter"][c]), dict(model=mhist, spec=shist))
             else:
                 info["beyond_bound"] += 1
                 info["beyond_bound_model_agrees"] += 1 if ihist == list(mhist) else 0
-            if not vhists[j]:
+            if not vhists[j] and not colnone[j]:
                 add("C13_check: histogram differs from hist_spec", "C13_hist_spec", [k], dict(column=c, hist=ihist), shist)
             # coverage
             icov = h["coverage"][c]
@@ -371,7 +472,7 @@ def compare_case(case, r, v, meta, probs, info):
             else:
                 for t, (x, q) in enumerate(zip(icov, mcovs)):
                     q = Fraction(q[0], q[1])
-                    if abs(Fraction(x) - q) > Fraction(COV_TOL):
+                    if x != x or x in (float("inf"), float("-inf")) or abs(Fraction(x) - q) > Fraction(COV_TOL):
                         add("C13_coverage: batch percentage = (1 - missing/n) * 100", "C13_coverage", [k],
                             dict(column=c, batch=t, coverage=x), str(q))
                         break
@@ -383,18 +484,18 @@ def compare_case(case, r, v, meta, probs, info):
                     add("C13_coverage_annotation: int(round(mean of batch percentages, 1))", "C13_coverage_annotation", [k],
                         dict(column=c, annotation=iann, batch_coverages=icov), dict(annotation=mann, mean=str(mean)))
         # rare values
-        irare = sorted((idx[kk[0]], kk[1], kk[2]) for kk in h["rare"])
-        mr = sorted((e[0], vlib.from_codes(e[1]), e[2]) for e in mrare)
-        if irare != mr or not vrare:
+        irare = sorted((idx[kk[0]], tuple(kk[1]), kk[2]) for kk in h["rare"])
+        mr = sorted((e[0], val_dec(e[1]), e[2]) for e in mrare)
+        if irare != mr or (not vrare and not tablenone):
             add("C13_rare_spec: report = {((col, v), total) | 1 <= total <= thr}", "C13_rare_spec", [k],
-                dict(rare=h["rare"], ignored=h["ignored"]), [[cols[a], b, c_] for a, b, c_ in mr])
+                dict(rare=h["rare"], ignored=h["ignored"]), [[cols[a], list(b), c_] for a, b, c_ in mr])
         if h["rare"]:
             if h["rare_file"] is None:
                 add("rare_values.tsv is written", "correspondence:rare_values.tsv", [k], h["rare_writer_error"], None)
             else:
                 info["writer_ran"] += 1
                 frows = sorted(tuple(x) for x in h["rare_file"]["rows"])
-                want = sorted((kk[0], kk[1], str(kk[2])) for kk in h["rare"])
+                want = sorted((kk[0], kk[1][1] if kk[1][0] == "s" else "", str(kk[2])) for kk in h["rare"])
                 if frows != want:
                     add("rare_values.tsv holds exactly the (feature, value, count) entries of the report",
                         "correspondence:rare_values.tsv", [k], h["rare_file"], want)
@@ -402,8 +503,14 @@ def compare_case(case, r, v, meta, probs, info):
                     info["writer_late_errors"] += 1
         else:
             info["empty_report"] += 1
-        canon.append((tuple(None if s["cold"] else s["len"] for s in (h["sketch"][c] for c in cols)),
-                      tuple(tuple(h["hist"][c][str(e)] for e in edges) for c in cols), tuple(irare)))
+        full = (tuple(None if s["cold"] else s["len"] for s in (h["sketch"][c] for c in cols)),
+                tuple(tuple(h["hist"][c][str(e)] for e in edges) for c in cols), tuple(irare))
+        fulls.append(full)
+        canon.append((tuple(None if colnone[j] else x for j, x in enumerate(full[0])),
+                      tuple(None if colnone[j] else x for j, x in enumerate(full[1])),
+                      tuple(x for x in irare if x[1][0] == "s")))
+    if tablenone and any(f != fulls[0] for f in fulls[1:]):
+        info["none_split_dependent"] = 1
     # split independence observed on the implementation alone
     for k in range(1, len(canon)):
         c0, ck = canon[0], canon[k]
@@ -518,7 +625,8 @@ def check(run, replay):
 
     hist = {"family": {}, "rows": {}, "ncols": {}, "batches_per_history": {}, "thr": {}, "small_bound": 0, "via_batch_ranking": 0,
             "histories": 0, "histories_with_reentry_of_a_retired_pair": 0}
-    agg = dict(cold=0, ties=0, beyond_bound=0, beyond_bound_model_agrees=0, writer_late_errors=0, writer_ran=0, empty_report=0)
+    agg = dict(cold=0, ties=0, beyond_bound=0, beyond_bound_model_agrees=0, writer_late_errors=0, writer_ran=0, empty_report=0,
+               none_table=0, none_split_dependent=0)
     collisions = 0
 
     def bump(d, k):
@@ -544,8 +652,12 @@ def check(run, replay):
 
     nviol = 0
     seen_obl = set()
-    for case, ps in zip(cases, problems):
-        for p in ps:
+    # clauses of the property first, crashes and harness-level correspondences after them
+    order = sorted(((0 if p["obligation"].startswith("C13_") else 1 if p["obligation"].startswith("correspondence") else 2, i, p)
+                    for i, ps in enumerate(problems) for p in ps), key=lambda x: (x[0], x[1]))
+    for _, ci, p in order:
+        case = cases[ci]
+        for p in [p]:
             nviol += 1
             if p["obligation"] in seen_obl:
                 continue
@@ -580,6 +692,12 @@ def check(run, replay):
     run.cov["empty_reports_writer_not_called"] = agg["empty_report"]
     run.cov["writer_errors_after_rare_values_tsv_was_written"] = agg["writer_late_errors"]
     run.cov["tables_with_a_hash_collision"] = collisions
+    run.cov["tables_with_None_cells"] = agg["none_table"]
+    run.cov["  of_which_statistics_differ_between_compositions_as_C13_none_cells_refuted_predicts"] = agg["none_split_dependent"]
+    if agg["none_split_dependent"]:
+        run.notes.append("FINDING (reported, not a VIOLATION of this run): with None cells (ob-vw absent namespaces) cardinality, "
+                         "histogram and rare table of the unchanged code depend on the batch split: pandas stores nan next to strings "
+                         "and None in an all-None batch column; model and implementation agree on every history (C13_none_cells_refuted)")
     run.cov["exhaustive"] = False
     run.cov["exhaustive_small_scope"] = ("every composition of every generated table with <= %d rows" %
                                          (5 if run.tier == "quick" else 6))
